@@ -59,6 +59,10 @@ pub fn context_shapes() -> Vec<(Vec<Inst>, Shape)> {
                 args.push(Arg::IdRef(41 + c as u32));
             }
             out.push((vec![sel.clone()], Shape { id: format!("Switch:type{}:cases{}", t, cases), inst: Inst::new("Switch", None, None, args.clone()) }));
+            // the selector operand names the TYPE id itself (an id that carries a width without being a value)
+            let mut args3 = args.clone();
+            args3[0] = Arg::IdRef(t);
+            out.push((vec![], Shape { id: format!("Switch:type{}:on-the-type-id:cases{}", t, cases), inst: Inst::new("Switch", None, None, args3) }));
             let mut args2 = args.clone();
             args2[0] = Arg::IdRef(21);
             out.push((vec![sel.clone(), copy.clone()], Shape { id: format!("Switch:type{}:copied:cases{}", t, cases), inst: Inst::new("Switch", None, None, args2) }));
@@ -132,6 +136,46 @@ pub fn context_variants() -> Vec<(Vec<Inst>, Shape)> {
         out.push((p.clone(), Shape { id: format!("{}:after-function", s.id), inst: s.inst.clone() }));
         p.extend(f2.iter().cloned());
         out.push((p, Shape { id: format!("{}:in-second-function", s.id), inst: s.inst.clone() }));
+    }
+    // a numeric type that is USED before it is declared (the lookup of its id misses: the literal is one word), then
+    // declared, then used again directly afterwards and once more later: what an id resolves to is decided by the
+    // declarations seen so far, not by what an earlier lookup of the same id answered
+    for (wn, decl, lit) in [
+        ("u64", Inst::new("TypeInt", None, Some(70), vec![Arg::Lit32(64), Arg::Lit32(0)]), Arg::Lit64(0x8000_0000_0000_0001)),
+        ("f64", Inst::new("TypeFloat", None, Some(70), vec![Arg::Lit32(64)]), Arg::Lit64(0x4000_0000_0000_0001)),
+    ] {
+        let early = Inst::new("Constant", Some(70), Some(71), vec![Arg::Lit32(9)]);
+        let use2 = Inst::new("Constant", Some(70), Some(72), vec![lit.clone()]);
+        let use3 = Inst::new("Constant", Some(70), Some(73), vec![lit.clone()]);
+        out.push((vec![early.clone(), decl.clone()], Shape { id: format!("Constant:{}:declared-after-a-use", wn), inst: use2.clone() }));
+        out.push((vec![early.clone(), early.clone(), decl.clone()], Shape { id: format!("Constant:{}:declared-after-two-uses", wn), inst: use2.clone() }));
+        out.push((vec![early.clone(), decl.clone(), use2.clone()], Shape { id: format!("Constant:{}:declared-after-a-use:second", wn), inst: use3.clone() }));
+        // the selector of a switch looked up before it is defined
+        let sw0 = Inst::new("Switch", None, None, vec![Arg::IdRef(74), Arg::IdRef(40)]);
+        let und = Inst::new("Undef", Some(70), Some(74), vec![]);
+        let sw = Inst::new("Switch", None, None, vec![Arg::IdRef(74), Arg::IdRef(40), lit.clone(), Arg::IdRef(41)]);
+        if wn == "u64" {
+            out.push((vec![sw0.clone(), decl.clone(), und.clone()], Shape { id: "Switch:u64:selector-defined-after-a-use".into(), inst: sw.clone() }));
+            out.push((vec![decl.clone(), sw0, und], Shape { id: "Switch:u64:selector-defined-after-a-use-2".into(), inst: sw }));
+        }
+    }
+    out
+}
+
+/// OpExtInst reached through an import of a named instruction set: every number 0..=210 (+ extremes) of every set name
+/// (the two sets the grammar knows, the non-semantic and debug-info sets, an unknown one), with 0, 5 small and 6 large ids
+pub fn ext_inst_variants() -> Vec<(Vec<Inst>, Shape)> {
+    let mut out = vec![];
+    for name in ["OpenCL.std", "GLSL.std.450", "NonSemantic.Shader.DebugInfo.100", "NonSemantic.DebugPrintf", "OpenCL.DebugInfo.100", "DebugInfo", "x"] {
+        let imp = Inst::new("ExtInstImport", None, Some(5), vec![Arg::Str(name.to_string())]);
+        let other = Inst::new("ExtInstImport", None, Some(6), vec![Arg::Str(if name == "OpenCL.std" { "GLSL.std.450" } else { "OpenCL.std" }.to_string())]);
+        for n in (0..=210u32).chain([1000, 0x7FFF_FFFF, 0xFFFF_FFFF]) {
+            for (vi, ops) in [vec![], vec![1u32, 2, 3, 4, 5], vec![77, 78, 79, 80, 81, 82]].into_iter().enumerate() {
+                let mut args = vec![Arg::IdRef(5), Arg::ExtInstNo(n)];
+                args.extend(ops.iter().map(|x| Arg::IdRef(*x)));
+                out.push((vec![imp.clone(), other.clone()], Shape { id: format!("ExtInst:via-import:{}:{}:v{}", name, n, vi), inst: Inst::new("ExtInst", Some(50), Some(60), args) }));
+            }
+        }
     }
     out
 }
@@ -222,8 +266,26 @@ pub fn seeds(tier: Tier) -> Vec<(Seed, Level)> {
             }
         }
     }
+    // OpExtInst through imports of further set names (non-semantic and debug-info sets have instruction numbers with
+    // special meaning for tools): numbers on both sides of 100, with two operands
+    for setname in ["NonSemantic.Shader.DebugInfo.100", "NonSemantic.DebugPrintf", "OpenCL.DebugInfo.100", "DebugInfo", "NonSemantic.", "SPV_AMD_gcn_shader", "GLSL.std.450x", "OpenCL.std.100"] {
+        for n in [0u32, 1, 22, 23, 24, 28, 29, 30, 100, 101, 102, 103, 104, 105, 171, 176, 1000] {
+            let imp = Inst::new("ExtInstImport", None, Some(5), vec![Arg::Str(setname.to_string())]);
+            let f = Inst::new("Function", Some(50), Some(51), vec![Arg::Mask("FunctionControl", 0), Arg::IdRef(52)]);
+            let l = Inst::new("Label", None, Some(53), vec![]);
+            let ext = Inst::new("ExtInst", Some(50), Some(60), vec![Arg::IdRef(5), Arg::ExtInstNo(n), Arg::IdRef(61), Arg::IdRef(4)]);
+            let r = Inst::new("Return", None, None, vec![]);
+            let fe = Inst::new("FunctionEnd", None, None, vec![]);
+            out.push((mutate::seed(&format!("ExtInst:{}:{}", setname, n), &[imp, f, l], &ext, &[r, fe]), Level::Scale));
+        }
+    }
     // literal consumers behind int / float types of extreme widths (size arithmetic at the range boundary)
-    for w in [0u32, 1, 7, 9, 31, 33, 63, 65, 127, 129, 0x7FFF_FFFF, 0x8000_0000, 0xFFFF_FFE0, 0xFFFF_FFE1, 0xFFFF_FFFF] {
+    // (incl. widths that agree with a supported width in their low 8 / 16 bits or differ from it in one high bit)
+    let mut widths: Vec<u32> = vec![0u32, 1, 7, 9, 31, 33, 63, 65, 127, 129, 0x7FFF_FFFF, 0x8000_0000, 0xFFFF_FFE0, 0xFFFF_FFE1, 0xFFFF_FFFF];
+    for base in [8u32, 16, 32, 64] {
+        widths.extend([base + 256, base + 512, base + 65_536, base + (1 << 24), base | 0x8000_0000, base + 0xFF00, base << 8]);
+    }
+    for w in widths {
         for (tname, ty) in [("int", Inst::new("TypeInt", None, Some(10), vec![Arg::Lit32(w), Arg::Lit32(1)])), ("float", Inst::new("TypeFloat", None, Some(10), vec![Arg::Lit32(w)]))] {
             let c = Inst::new("Constant", Some(10), Some(20), vec![Arg::Lit32(5)]);
             out.push((mutate::seed(&format!("Constant:behind-{}{:#x}", tname, w), &[ty.clone()], &c, &[]), Level::Framing));
